@@ -97,10 +97,10 @@ def verify_function(world, qual, timeout_ms=5000, cover=True, mutate=None, want_
                 rep['obligations'].append(dict(id=ob.id, kind=ob.kind, desc=ob.desc, line=ob.line, result='known-finding',
                                                backend=None, time=r['time'], model=None))
                 continue
-        # once three obligations of this function (shard) are not discharged the code has evidently changed: the rest get a short budget,
+        # once an obligation of this function (shard) is not discharged the code has probably changed: the rest get 20 s, after three 5 s,
         # which bounds the cost of a run on a changed tree and alters nothing on a tree where everything is discharged
         n_bad = sum(1 for e_ in rep['obligations'] if e_['result'] not in ('proved', 'known-finding'))
-        r = solve.check(world, ob, timeout_ms=timeout_ms if n_bad < 3 else min(timeout_ms, 5000), depth=c.unfold, prefer_cvc5=getattr(c, 'prefer_cvc5', False))
+        r = solve.check(world, ob, timeout_ms=timeout_ms if n_bad == 0 else min(timeout_ms, 20000 if n_bad < 3 else 5000), depth=c.unfold, prefer_cvc5=getattr(c, 'prefer_cvc5', False))
         entry = dict(id=ob.id, kind=ob.kind, desc=ob.desc, line=ob.line, result=r['result'],
                      backend=r['backend'], time=r['time'], model=r['model'])
         if r.get('second') is not None:
